@@ -11,6 +11,7 @@ from simlib import Rng, mkspec, random_sched, starve_each
 PROPERTY = "C17"
 LEVEL = "exploration"
 BUDGET = {"quick": 80, "thorough": 1500}
+MIN_CASES = {"quick": 1200}  # see checklib.Check: quick goes on to this many cases on a loaded machine (up to 3x its budget)
 RULE = ("cases: a verb chain + inputs + one planned fault (missing/unopenable/unreadable input, malformed record at "
         "position p per format, DSL run-time failure at record p or in the end block at chain position q, inexpressible "
         "output, write/open/close failure on stdout or on a tee/split/redirect target, early-exiting pipe target, "
